@@ -15,7 +15,7 @@ func init() {
 			"methods of the base (Set*, Remove*, Append*, Delete*, Add*, CheckAndSet*, Pack*, RawObjectWriter, PackfileWriter) are invoked on the base field only inside Commit; " +
 			"(pending-state-consulted) every overlay method that reads the base also consults each pending-state field of its type (temporal, plus the tombstone/set flag listed per type); " +
 			"(singleton-set-flag) the single-value overlays (index, config, shallow) have a bool set in the setter and tested in getter and Commit; " +
-			"(commit-coverage) basic.Commit commits every overlay and the reflog overlay; (removal-always-recorded) every successful return of the transactional RemoveReference is preceded by recording the name in the pending deletions. Not decided: equality of the view with a model over operation sequences; duplicates in object listings.",
+			"(commit-coverage) basic.Commit commits every overlay and the reflog overlay; (removal-always-recorded) every successful return of the transactional RemoveReference is preceded by recording the name in the pending deletions. (commit-copies-every-object-type) the object overlay's Commit iterates the pending objects for AnyObject or over a list naming all four types. Not decided: equality of the view with a model over operation sequences; duplicates in object listings.",
 		Assumptions: []string{"the base and temporal storers implement their interfaces correctly"},
 		Run:         runC19,
 	})
